@@ -19,4 +19,7 @@ def run(rep, fb, tier):
     lints.rule_regular_nesting(rep, fb)
     from ..rules import lints as _l
     _l.rule_string_equality(rep, fb)
+    from ..rules import pybind as _pb, pyrules as _pr2
+    _pb.rule_py_bindings(rep)
+    _pr2.rule_py_call_signature(rep)
     rep.units = fb.units
